@@ -375,10 +375,11 @@ class HashSeedEngine(Engine):
         combos = [["PKS_AT", "PKS_KS"], ["Condensation", "AMP-binding"], ["t2ks", "t2clf"], ["LANC_like", "Lant_dehydr_N", "Lant_dehydr_C"],
                   ["Chal_sti_synt_C"], ["PUFA_KS"], ["APE_KS1"], ["phytoene_synt"], ["DarB"], ["PKS_AT", "tra_KS"],
                   ["t2ks", "t2clf"], ["t2clf", "t2ks"], ["phytoene_synt"]]
+        straddling: List[List[str]] = []
         for r in range(rng.choice([1, 1, 2])):
             # (mostly records shorter than any rule's neighbourhood: one region covers them entirely; on the long
             # ones a region near the start of a circular record reaches back over the origin instead)
-            length = rng.choice([4000, 8000, 8000, 12000, 12000, 60000])
+            length = rng.choice([4000, 8000, 8000, 12000, 12000, 60000, 60000])
             seq = "".join(rng.choice(GC_ALPHABET) for _ in range(length))
             genes = []
             circular = rng.random() < 0.4
@@ -398,6 +399,8 @@ class HashSeedEngine(Engine):
             g = 0
             while g < 16:
                 size = rng.choice([300, 600, 900, 1500, 2400])
+                if length >= 60000 and g == 8:
+                    pos = max(pos, limit - rng.choice([9000, 15000, 22000]))    # the other half sits at the far end
                 if pos + size > limit:
                     break
                 genes.append({"name": f"r{r}g{g}", "parts": [[pos, pos + size]], "strand": rng.choice([1, -1])})
@@ -418,6 +421,14 @@ class HashSeedEngine(Engine):
             for _ in range(0 if quiet else rng.randint(1, 4)):
                 combo = rng.choice(combos)
                 targets = [rng.choice(genes)] if rng.random() < 0.6 else rng.sample(genes, min(len(genes), len(combo)))
+                if length >= 60000 and circular and len(combo) >= 2 and rng.random() < 0.7:
+                    # the defining genes of one cluster on either side of the origin of a long circular record
+                    plain = [gene for gene in genes if len(gene["parts"]) == 1]
+                    near = [gene for gene in plain if gene["parts"][0][1] < 12000]
+                    far = [gene for gene in plain if gene["parts"][0][0] > length - 12000]
+                    if near and far:
+                        targets = [rng.choice(near), rng.choice(far)]
+                        straddling.append(combo)
                 for j, profile in enumerate(combo):
                     gene = targets[j % len(targets)]
                     aa = sum(e - b for b, e in gene["parts"]) // 3
@@ -468,6 +479,18 @@ class HashSeedEngine(Engine):
         extra: List[str] = []
         if rng.random() < 0.3:
             extra += ["--hmmdetection-strictness", rng.choice(["strict", "loose"])]
+        if rng.random() < (0.6 if straddling else 0.2):
+            # detection limited to some rules (their cutoffs differ: 5 to 20 kb and more)
+            names = ["T1PKS", "NRPS", "T2PKS", "T3PKS", "terpene", "lanthipeptide-class-i", "PUFA", "arylpolyene", "resorcinol",
+                     "hglE-KS", "transAT-PKS", "NRPS-like", "CDPS", "ladderane", "PpyS-KS"]
+            chosen = rng.sample(names, rng.randint(3, 9))
+            fired = {"PKS_AT+PKS_KS": "T1PKS", "Condensation+AMP-binding": "NRPS", "t2ks+t2clf": "T2PKS", "t2clf+t2ks": "T2PKS",
+                     "LANC_like+Lant_dehydr_N+Lant_dehydr_C": "lanthipeptide-class-i", "PKS_AT+tra_KS": "transAT-PKS"}
+            for combo in straddling:     # (the rules of clusters laid over the origin are among them)
+                rule = fired.get("+".join(combo))
+                if rule and rule not in chosen:
+                    chosen.append(rule)
+            extra += ["--hmmdetection-limit-to-rule-names", ",".join(chosen)]
         # transcription factor binding site search: pure python (MOODS), scans the sequence itself
         if rng.random() < 0.3:
             extra += ["--tfbs", "--tfbs-pvalue", rng.choice(["0.00001", "0.0005", "0.002"]), "--tfbs-range",
